@@ -12,6 +12,7 @@ THEOREMS = [
     "VK.C05_reject_is_typeError",
     "VK.C05_totals",
     "VK.C05_subclass_params",
+    "VK.C04_elect_top",
 ]
 RULE = ("cases = class in {GeneralRating, Rating, Limited, Cumulative, Approval, BlocPlurality} x score profile (1-6 "
         "candidates, candidates scored by nobody, rational scores and weights) x m x L x k x tiebreak; 45% of the "
